@@ -137,6 +137,8 @@ func TestDrv_C11(t *testing.T) {
 	}
 	cases := 0
 	var samples []any
+	var pool vegeta.Metrics
+	poolRep := vegeta.NewHDRHistogramPlotReporter(&pool)
 	for round := 0; round < rounds; round++ {
 		for _, n := range sizes {
 			for shape := 0; shape < 8; shape++ {
@@ -175,15 +177,22 @@ func TestDrv_C11(t *testing.T) {
 						}
 					}
 					cases++
-					var m vegeta.Metrics
+					// every first arrival order re-uses one Metrics variable (reset by assignment) and the reporter made for it
+					// once, as a caller with equal-sized reporting windows would; the others use fresh ones
+					var local vegeta.Metrics
+					m, rep := &local, vegeta.Reporter(nil)
+					if order == 0 {
+						pool = vegeta.Metrics{}
+						m, rep = &pool, poolRep
+					}
 					for i, v := range arr {
 						m.Add(&vegeta.Result{Seq: uint64(i), Code: 200, Timestamp: time.Unix(1600000000, int64(i)), Latency: time.Duration(v)})
 						// reading a percentile or rendering a report in between (periodic reporting, a by-value snapshot) is an observation
 						if order == 2 && n >= 10 && (i == n/3 || i == n/2 || i == n-2) {
 							_ = m.Latencies.Quantile(0.5)
-							snap := m
+							snap := *m
 							snap.Close()
-							_ = vegeta.NewHDRHistogramPlotReporter(&m).Report(io.Discard)
+							_ = vegeta.NewHDRHistogramPlotReporter(m).Report(io.Discard)
 						}
 					}
 					m.Close()
@@ -204,7 +213,10 @@ func TestDrv_C11(t *testing.T) {
 						tr.Emit("Rank", KV{"q": qv.q, "v": Big(v), "lt": lt, "le": le})
 					}
 					var buf bytes.Buffer
-					if err := vegeta.NewHDRHistogramPlotReporter(&m).Report(&buf); err != nil {
+					if rep == nil {
+						rep = vegeta.NewHDRHistogramPlotReporter(m)
+					}
+					if err := rep.Report(&buf); err != nil {
 						tr.Emit("Panic", KV{"what": "hdrplot", "value": err.Error()})
 						continue
 					}
